@@ -36,30 +36,62 @@ fn parse_kind(bytes: &[u8]) -> Result<ExpectedParse, String> {
     })
 }
 
-pub fn header_edits(h: &Header, key: u64) -> Vec<(&'static str, u32, Header)> {
+pub fn header_edits(h: &Header, key: u64) -> Vec<(String, u32, Header)> {
     let mut out = Vec::new();
     let magic = h.magic;
     let r = (key as u32) | 0x0101_0101;
     for (n, v) in [("magic=swapped", magic.swap_bytes()), ("magic=0", 0), ("magic+1", magic.wrapping_add(1)), ("magic=random", r ^ 0x5a5a_5a5a)] {
-        out.push((n, v, Header { magic: v, ..*h }));
+        out.push((n.to_string(), v, Header { magic: v, ..*h }));
     }
     for (n, v) in [("version=0", 0u32), ("version=2", 2), ("version=max", u32::MAX), ("version=random", (r | 2) & !1)] {
-        out.push((n, v, Header { version: v, ..*h }));
+        out.push((n.to_string(), v, Header { version: v, ..*h }));
     }
     let edits = |x: u32| -> [(&'static str, u32); 6] {
         [("=0", 0), ("-1", x.wrapping_sub(1)), ("+1", x.wrapping_add(1)), ("*2", x.wrapping_mul(2)), ("=2^31", 1 << 31), ("=2^32-1", u32::MAX)]
     };
     for (n, v) in edits(h.num_classes) {
-        out.push((Box::leak(format!("num_classes{n}").into_boxed_str()), v, Header { num_classes: v, ..*h }));
+        out.push((format!("num_classes{n}"), v, Header { num_classes: v, ..*h }));
     }
     for (n, v) in edits(h.num_members) {
-        out.push((Box::leak(format!("num_members{n}").into_boxed_str()), v, Header { num_members: v, ..*h }));
+        out.push((format!("num_members{n}"), v, Header { num_members: v, ..*h }));
     }
     for (n, v) in edits(h.num_members_by_params) {
-        out.push((Box::leak(format!("num_members_by_params{n}").into_boxed_str()), v, Header { num_members_by_params: v, ..*h }));
+        out.push((format!("num_members_by_params{n}"), v, Header { num_members_by_params: v, ..*h }));
     }
     for (n, v) in edits(h.string_bytes) {
-        out.push((Box::leak(format!("string_bytes{n}").into_boxed_str()), v, Header { string_bytes: v, ..*h }));
+        out.push((format!("string_bytes{n}"), v, Header { string_bytes: v, ..*h }));
+    }
+    // every permutation of the four magic bytes (only the full reversal is "other endianness"), case variants
+    let mb = magic.to_le_bytes();
+    let idx = [0usize, 1, 2, 3];
+    for a in idx {
+        for b in idx {
+            for c in idx {
+                for d in idx {
+                    if a != b && a != c && a != d && b != c && b != d && c != d {
+                        let v = u32::from_le_bytes([mb[a], mb[b], mb[c], mb[d]]);
+                        if v != magic {
+                            out.push((format!("magic=perm{a}{b}{c}{d}"), v, Header { magic: v, ..*h }));
+                        }
+                    }
+                }
+            }
+        }
+    }
+    out.push(("magic=lowercase".to_string(), u32::from_le_bytes(*b"prgc"), Header { magic: u32::from_le_bytes(*b"prgc"), ..*h }));
+    // every single-bit flip of every header field
+    for bit in 0..32u32 {
+        let m = 1u32 << bit;
+        out.push((format!("magic^bit{bit}"), h.magic ^ m, Header { magic: h.magic ^ m, ..*h }));
+        out.push((format!("version^bit{bit}"), h.version ^ m, Header { version: h.version ^ m, ..*h }));
+        out.push((format!("num_classes^bit{bit}"), h.num_classes ^ m, Header { num_classes: h.num_classes ^ m, ..*h }));
+        out.push((format!("num_members^bit{bit}"), h.num_members ^ m, Header { num_members: h.num_members ^ m, ..*h }));
+        out.push((format!("num_members_by_params^bit{bit}"), h.num_members_by_params ^ m, Header { num_members_by_params: h.num_members_by_params ^ m, ..*h }));
+        out.push((format!("string_bytes^bit{bit}"), h.string_bytes ^ m, Header { string_bytes: h.string_bytes ^ m, ..*h }));
+    }
+    // versions that agree with 1 in one half / one byte only
+    for v in [0x0001_0001u32, 0x0100_0001, 0x0000_0101, 0x0001_0000, 0x0100_0000, 0xffff_0001, 0x0000_ff01] {
+        out.push((format!("version={v:#x}"), v, Header { version: v, ..*h }));
     }
     out
 }
@@ -227,7 +259,7 @@ pub fn foreign_case() -> proptest::strategy::BoxedStrategy<ForeignCase> {
 
 pub fn run(ctx: &Ctx) -> Report {
     let mut rep = Report::new(ID, "fault_enumeration", ctx);
-    rep.rule = "Cases: valid caches written from grammar-generated mappings (0..~60 classes). Per cache, enumerated exhaustively: every strict prefix length 0..len-1 and every single-field edit of the 24-byte header (magic in {byte-swapped,0,+1,random}; version in {0,2,2^32-1,random}; each of the four counts in {0,-1,+1,*2,2^31,2^32-1}), plus a grid of foreign headers where magic and version differ together (incl. fully byte-swapped headers), plus foreign buffers (mapping text, zeros, random bytes, random tails behind right/swapped/near-miss magic). Oracle: expected outcome computed from the documented layout (first section that does not fit decides InvalidClasses/InvalidMembers/UnexpectedStringBytes{expected,found}; magic/version rules); a prefix that is accepted must answer the whole universe like the full file. evaluations = parse calls. Non-trivial = distinct (file, fault) where the rejection depends on a section check (prefix >= 24 bytes, count edits).".into();
+    rep.rule = "Cases: valid caches written from grammar-generated mappings (0..~60 classes). Per cache, enumerated exhaustively: every strict prefix length 0..len-1 and every single-field edit of the 24-byte header (magic in {byte-swapped,0,+1,random}; version in {0,2,2^32-1,random}; each of the four counts in {0,-1,+1,*2,2^31,2^32-1}; all 23 other permutations of the magic bytes; every single-bit flip of each of the six header fields; versions agreeing with 1 in one half/byte), plus a grid of foreign headers where magic and version differ together (incl. fully byte-swapped headers), plus foreign buffers (mapping text, zeros, random bytes, random tails behind right/swapped/near-miss magic). Oracle: expected outcome computed from the documented layout (first section that does not fit decides InvalidClasses/InvalidMembers/UnexpectedStringBytes{expected,found}; magic/version rules); a prefix that is accepted must answer the whole universe like the full file. evaluations = parse calls. Non-trivial = distinct (file, fault) where the rejection depends on a section check (prefix >= 24 bytes, count edits).".into();
     rep.assumptions = vec!["buffers are 8-byte aligned (prefixes are sub-slices of an aligned buffer)".into()];
     let n = ctx.cases(10_000, 450_000);
     rep.run_stage("ast", || map_case(&cfg()), n, check_case);
